@@ -540,6 +540,23 @@ class InheritableSQLObject(SQLObject):
             self._parent.destroySelf()
         super(InheritableSQLObject, self).destroySelf()
 
+    # The inherited columns live on the ancestors' instances: refreshing,
+    # flushing or expiring an object means doing so at every level.
+    def sync(self):
+        if self._parent is not None:
+            self._parent.sync()
+        super(InheritableSQLObject, self).sync()
+
+    def syncUpdate(self):
+        if self._parent is not None:
+            self._parent.syncUpdate()
+        super(InheritableSQLObject, self).syncUpdate()
+
+    def expire(self):
+        if self._parent is not None:
+            self._parent.expire()
+        super(InheritableSQLObject, self).expire()
+
     def _reprItems(self):
         items = super(InheritableSQLObject, self)._reprItems()
         # add parent attributes (if any)
